@@ -138,8 +138,10 @@ func issueKey(s string) string {
 
 func (c *c10) RunCase(w *core.Worker, idx int, seed uint64, res *core.CaseResult) {
 	rng := core.NewRng(seed)
-	poolName := []string{"base+mk", "base+mk+extra", "base+mk+extra", "base+extra", "base+mk+extra+pres"}[idx%5]
+	poolName := []string{"base+mk", "base+mk+extra", "base+mk+extra", "base+extra", "base+mk+extra+pres", "base+choice"}[idx%6]
 	c.h.pool = poolFor(poolName)
+	// (only-intended deletes leave unmanaged nodes of a choice case behind; what is owed to them is not stated)
+	c.h.noOrphan = strings.Contains(poolName, "choice")
 	run := c.h.start(rng, res, true, true)
 	defer run.close()
 	res.Tracef("pool=%s", poolName)
@@ -158,6 +160,16 @@ func (c *c10) RunCase(w *core.Worker, idx int, seed uint64, res *core.CaseResult
 	}
 	for s := 0; s < steps && !stop(); s++ {
 		step := run.genStep(3)
+		if strings.Contains(poolName, "choice") {
+			for i := range step {
+				if !step[i].Delete {
+					oneCasePerIntent(step[i].Vals)
+					if len(step[i].Vals) == 0 {
+						step[i].Vals = map[string]string{"/ch/other": "o1"}
+					}
+				}
+			}
+		}
 		res.Tracef("step %d: %s", s, stepString(step))
 		nBefore := run.ds.Dev.NumSets()
 		if _, ok := run.commit(step); !ok {
